@@ -53,7 +53,7 @@ var (
 	vAllDerivs = []string{"pp", "pr", "ao", "ai", "aoi", "aii", "aia", "fa", "ft", "fr"}
 )
 
-func vEmpty() vURL { return vURL{kind: 'e'} }
+func vEmpty() vURL    { return vURL{kind: 'e'} }
 func vBad(n int) vURL { return vURL{kind: 'b', n: n} }
 func vAt(scheme string, loop bool, host, seg, slashes int) vURL {
 	return vURL{kind: 'a', scheme: scheme, loop: loop, host: host, seg: seg, slashes: slashes}
